@@ -342,6 +342,12 @@ static cJSON *get_item_from_pointer(cJSON * const object, const char * pointer, 
         }
     }
 
+    /* a JSON pointer is either empty or begins with '/' (RFC 6901): anything left over here is not a path */
+    if (pointer[0] != '\0')
+    {
+        return NULL;
+    }
+
     return current_element;
 }
 
